@@ -63,6 +63,113 @@ def total_rule(ctx, rule, prog, roots, safe, min_bodies, min_sources, skip_body=
     return reach
 
 
+def recur_rule(ctx, prog, reach, syn):
+    """a stack overflow is not a syntax error: it aborts the process.  Every cycle of the call graph among the functions
+    the parser can reach (a function that calls itself, or several that call each other) either has a reviewed reason
+    why it is not a recursion on the input, or is bounded by a depth counter: some member refuses to go on when
+    `depth` reaches a constant, and every call that closes the cycle hands on `depth` or `depth + 1`."""
+    from synq import walk, unparse, strip
+    r = ctx.rule("C09.RECUR", "every call-graph cycle reachable from the query parser is bounded by a depth counter (a guard `depth >= CONST` that returns an error, and depth or depth + 1 passed on every call inside the cycle) or has a reviewed reason")
+    table = load_safe("C09.RECUR")
+    edges = prog.edges()
+    members = sorted(b for b in reach if not prog.bodies[b].d.get("derived"))
+    inreach = set(members)
+    # strongly connected components (iterative Tarjan)
+    index, low, stack, onstack, comps, counter = {}, {}, [], set(), [], [0]
+    for root in members:
+        if root in index:
+            continue
+        work = [(root, iter(sorted(w for w in edges.get(root, ()) if w in inreach)))]
+        index[root] = low[root] = counter[0]
+        counter[0] += 1
+        stack.append(root)
+        onstack.add(root)
+        while work:
+            v, it = work[-1]
+            adv = False
+            for w in it:
+                if w not in index:
+                    index[w] = low[w] = counter[0]
+                    counter[0] += 1
+                    stack.append(w)
+                    onstack.add(w)
+                    work.append((w, iter(sorted(x for x in edges.get(w, ()) if x in inreach))))
+                    adv = True
+                    break
+                elif w in onstack:
+                    low[v] = min(low[v], index[w])
+            if adv:
+                continue
+            work.pop()
+            if work:
+                low[work[-1][0]] = min(low[work[-1][0]], low[v])
+            if low[v] == index[v]:
+                comp = []
+                while True:
+                    w = stack.pop()
+                    onstack.discard(w)
+                    comp.append(w)
+                    if w == v:
+                        break
+                if len(comp) > 1 or v in edges.get(v, ()):
+                    comps.append(sorted(comp))
+    by_pos = dict(((f.file, f.line), f) for f in syn.fns if f.body is not None)
+    by_qual = dict(((f.file, f.qual), f) for f in syn.fns if f.body is not None)
+    n = 0
+    for comp in sorted(comps):
+        key = "|".join(mirq.short_fn(x) for x in comp)
+        n += 1
+        if "|".join(comp) in table:
+            r.hit("cycle:" + key[:80], sample={"cycle": comp, "reason": table["|".join(comp)][:100]})
+            continue
+        fns = [by_pos.get((prog.bodies[x].file, prog.bodies[x].line)) or by_qual.get((prog.bodies[x].file, mirq.short_fn(x))) for x in comp]
+        why = None
+        if any(f is None for f in fns):
+            why = "its functions could not be matched to their syntax trees"
+        else:
+            names = set(f.name for f in fns)
+            guard = False
+            plus = False
+            bad_call = None
+            for f in fns:
+                for nd in walk(f.body):
+                    if nd.get("k") == "if" and re.search(r"\bdepth\s*(>=|>)\s*[A-Z_0-9]+", unparse(nd["cond"])) and any(x.get("k") == "return" and "Err" in unparse(x) for x in walk(nd["then"])):
+                        guard = True
+                    if nd.get("k") == "call" and nd["func"].get("k") == "path" and nd["func"]["path"][-1] in names and (len(nd["func"]["path"]) == 1 or nd["func"]["path"][-2] in ("Self", "Query", "Constraint", "Assignment")):
+                        args = [unparse(strip(a)).replace(" ", "") for a in nd["args"]]
+                        if any(a in ("depth+1", "(depth+1)") for a in args):
+                            plus = True
+                        elif "depth" not in args:
+                            bad_call = "%s calls %s without handing on its depth (line %s)" % (f.name, nd["func"]["path"][-1], nd.get("l"))
+            if not guard:
+                why = "no member refuses to go on when a depth counter reaches a constant"
+            elif not plus:
+                why = "no call inside the cycle increases the depth counter"
+            elif bad_call:
+                why = bad_call
+        r.hit("cycle:" + key[:80], sample={"cycle": comp, "bounded_by_depth_counter": why is None})
+        if why:
+            ctx.report(r, "cycle:" + key, "the parser functions %s can call each other in a cycle that follows the nesting of the input, and %s: a query text with enough nested blocks recurses until the stack overflows, which aborts the process instead of returning a syntax error" % ([mirq.short_fn(x) for x in comp], why), prog.bodies[comp[0]].file, prog.bodies[comp[0]].line)
+    ctx.floor(r, n, 2, "call-graph cycles reachable from the parser")
+
+
+def constraint_parser_nodes(syn):
+    """the syntax-tree nodes of Constraint::parse and of the functions of the same impl it hands on to (`Self::name(..)`):
+    a depth-carrying helper holds the arms since the nesting bound"""
+    cparse = syn.fn("parse", self_ty="Constraint")
+    impl_fns = dict((f.name, f) for f in syn.fns if (f.self_ty or "").split("<")[0] == "Constraint" and f.file == cparse.file and f.body is not None and f.trait is None)
+    bodies, todo = [], [cparse]
+    while todo:
+        f = todo.pop()
+        if any(f is g for g in bodies):
+            continue
+        bodies.append(f)
+        for c in walk(f.body):
+            if c.get("k") == "call" and c["func"].get("k") == "path" and len(c["func"]["path"]) == 2 and c["func"]["path"][0] in ("Self", "Constraint") and c["func"]["path"][1] in impl_fns:
+                todo.append(impl_fns[c["func"]["path"][1]])
+    return [n for f in bodies for n in walk(f.body)]
+
+
 def leading_kw(s):
     m = re.match(r"^([A-Z]{2,})\b", s)
     return m.group(1) if m else None
@@ -81,7 +188,8 @@ def run(ctx):
     roots = [b.id for b in prog.find_bodies(ENTRY_RX)]
     if len(roots) < 4:
         ctx.anchor_missing(r_total, "parser entry points (found %d of 4)" % len(roots))
-    total_rule(ctx, r_total, prog, roots, load_safe("C09"), 40, 40)
+    reach_total = total_rule(ctx, r_total, prog, roots, load_safe("C09"), 40, 40)
+    recur_rule(ctx, prog, reach_total, syn)
 
     ws_rule(ctx, syn)
     limit_rule(ctx, syn)
@@ -102,8 +210,9 @@ def run(ctx):
     cparse = syn.fn("parse", self_ty="Constraint")
     cprint = syn.fn("to_string", self_ty="Constraint")
     ctx.functions_analysed.update([cparse.qual, cprint.qual])
+    cparse_nodes = constraint_parser_nodes(syn)
     parsed = set()
-    for n in walk(cparse.body):
+    for n in cparse_nodes:
         if n.get("k") == "arm":
             for p in walk(n["pat"]):
                 if p.get("k") == "pat" and p.get("p") == "tuplestruct" and p["path"][-1] == "Some":
@@ -129,7 +238,7 @@ def run(ctx):
         if n.get("k") == "arm" and n["body"].get("k") == "lit":
             op_printed[n["body"]["v"]] = n["l"]
     op_parsed = set()
-    for n in walk(cparse.body):
+    for n in cparse_nodes:
         if n.get("k") == "match":
             lits = [a["pat"]["lit"]["v"] for a in n["arms"] if a["pat"].get("p") == "lit" and a["pat"]["lit"].get("t") == "str"]
             if "EMBEDS" in lits or "OVERLAPS" in lits:
@@ -248,7 +357,7 @@ def limit_rule(ctx, syn):
     cprint = syn.fn("to_string", self_ty="Constraint")
     closed = syn.fn("closed", self_ty="Constraint")
     parm = None
-    for n in walk(cparse.body):
+    for n in constraint_parser_nodes(syn):
         if n.get("k") == "arm" and re.sub(r"\s+", "", n["pat"]["s"]) == 'Some("LIMIT")':
             parm = n
     prm = None
